@@ -301,13 +301,11 @@ pub fn convert_node(ast: &ASTTy, imp: &mut Imports, state: &State, ctx: &Context
             if matches!(left, Core::Id { .. }) {
                 default_if_none(left)
             } else {
-                // Evaluate left only once, bound to a name that right does not mention
-                let right_text = format!("{right}");
-                let mut lit = String::from("value");
-                while right_text.contains(&lit) {
-                    lit.push('_');
-                }
-                let value = Core::Id { lit };
+                // Evaluate left only once, bound to a name which no Mamba identifier can equal
+                // (identifiers are ASCII), so that it cannot capture a name that right mentions
+                let value = Core::Id {
+                    lit: String::from("value\u{2B9}"),
+                };
                 Core::FunctionCall {
                     function: Box::from(Core::AnonFun {
                         args: vec![value.clone()],
